@@ -922,7 +922,14 @@ func cffOutlines(r *rand.Rand, o Opts, n int, widths []int, cidKeyed bool, info 
 				k = 1 + r.IntN(min(n-1, 200))
 			}
 			perm := r.Perm(256)
-			if r.IntN(2) == 0 {
+			full := false
+			if n > 256 && r.IntN(3) == 0 {
+				// all codes (or all but one or two) in use
+				k = 254 + r.IntN(3)
+				full = true
+				info.Classes = append(info.Classes, fmt.Sprintf("cff:encoding-%d-codes", k))
+			}
+			if r.IntN(2) == 0 || full {
 				// runs of consecutive codes
 				start := r.IntN(256 - k + 1)
 				for i := range perm {
